@@ -515,7 +515,7 @@ func c06GenStreams(c *hmain.Ctx, bufs []int) {
 		}
 		return string(b)
 	}
-	garbage := [][]byte{nil, []byte("x"), []byte(`{"stream":"a","m":`), []byte("}{"), []byte("no-space"), []byte("t stdout")}
+	garbage := [][]byte{nil, []byte("x"), []byte(`{"stream":"a","m":`), []byte("}{"), []byte("nospacx"), []byte("t stdout")} // no suffix of these is a JSON value (insane-json takes e, 1e, - ... for numbers)
 	cfgsS := []c06Cfg{{0, false}, {0, false}, {0, false}, {60, false}, {45, false}}
 	randFile := func(format int) (lines [][]byte, owner []string) {
 		ss := streamsOf(format)
@@ -528,6 +528,10 @@ func c06GenStreams(c *hmain.Ctx, bufs []int) {
 			case format == 0 && r.Chance(1, 8):
 				lines = append(lines, c06SRender(0, "", pads()))
 				owner = append(owner, "not_set")
+			case format == 1 && r.Chance(1, 6): // a short row: DecodeCRI takes any token for the time (In logs that it cannot parse it)
+				s := ss[r.Intn(ns)]
+				lines = append(lines, []byte("0 "+s+" F "+"xy"[:r.Intn(3)]))
+				owner = append(owner, s)
 			default:
 				s := ss[r.Intn(ns)]
 				lines = append(lines, c06SRender(format, s, pads()))
@@ -563,7 +567,7 @@ func c06GenStreams(c *hmain.Ctx, bufs []int) {
 		}
 		return
 	}
-	for i := 0; i < 2000*c.Scale; i++ {
+	for i := 0; i < 1500*c.Scale; i++ {
 		format := r.Intn(2)
 		cf := hx.Pick(r, cfgsS)
 		lines, owner := randFile(format)
